@@ -16,7 +16,7 @@ RULE = ("random BC point lists (1-6 points, distinct Mach, by Mach or by velocit
         "form (shipped dict list | DragDataPoint list taken from a donor model | fresh DragDataPoint list | custom table) "
         "x with/without weight+diameter; each case builds the model twice; non-trivial when there are >= 2 points and "
         "the table is given as DragDataPoint objects or the points are out of order")
-MUST_OBSERVE = ["models_built", "nodes_checked", "form_dicts", "form_donor_points", "form_fresh_points", "with_weight",
+MUST_OBSERVE = ["points_by_bare_velocity", "models_built", "nodes_checked", "form_dicts", "form_donor_points", "form_fresh_points", "with_weight",
                 "without_weight", "single_point_equivalence", "single_point_fired", "by_velocity", "by_mach",
                 "shuffled_points", "second_builds", "donor_unchanged_checks", "foreign_model_tuned"]
 ASSUMPTIONS = ["velocity points are converted to Mach with the standard 15 C speed of sound sqrt(288.15) x 20.0467 m/s",
@@ -62,7 +62,11 @@ def std_cd(case):
 def mk_points(case):
     pts = []
     for p in case["points"]:
-        if p.get("v_mps") is not None:
+        if p.get("v_mps") is not None and case.get("bare_velocities_in"):
+            # velocities as bare numbers of the session's preferred velocity unit
+            pb.PreferredUnits.velocity = Unit[case["bare_velocities_in"]]
+            pts.append(BCPoint(p["bc"], V=p["v_mps"] / VU[case["bare_velocities_in"]]))
+        elif p.get("v_mps") is not None:
             pts.append(BCPoint(p["bc"], V=Unit[p["unit"]](p["v_mps"] / VU[p["unit"]])))
         else:
             pts.append(BCPoint(p["bc"], Mach=p["mach"]))
@@ -95,6 +99,8 @@ def check_case(ctx, case):
     else:
         ctx.count("without_weight")
     pts = mk_points(case)
+    if case.get("bare_velocities_in"):
+        ctx.count("points_by_bare_velocity")
     for bp, p in zip(pts, case["points"]):
         if not abs(bp.Mach - expected_mach(p)) <= 1e-6 * expected_mach(p):
             ctx.violation("point-mach", f"BCPoint Mach {bp.Mach!r}, expected {expected_mach(p)!r}", case)
@@ -216,6 +222,8 @@ def gen_case(rng):
     rng.shuffle(pts)
     table = gen.custom_table(rng) if rng.random() < 0.2 else rng.choice(TABLE_NAMES)
     case = {"points": pts, "table": table, "form": rng.choice(["dicts", "donor_points", "donor_points", "fresh_points"])}
+    if by_v and rng.random() < 0.3:
+        case["bare_velocities_in"] = rng.choice(list(VU))
     if rng.random() < 0.5:
         case.update(weight_gr=round(rng.uniform(40, 750), 1), diameter_in=round(rng.uniform(0.17, 0.6), 3))
     if n == 1 and isinstance(table, str) and rng.random() < 0.4:
